@@ -26,7 +26,7 @@ EPS = sys.float_info.epsilon
 TYPES = {'int': int, 'float': float, 'Fraction': F, 'np.float64': np.float64, 'np.float32': np.float32,
          'np.int64': np.int64}
 VALUES = (-2, -1, 0, 1, 3)
-DELTAS = (F(1, 100), F(1, 2), 1)
+DELTAS = (5e-324, 1e-310, 2.3e-308, F(1, 100), F(1, 2), 1)      # every delta in (0, 1], down to the smallest float
 
 
 def finite(v):
@@ -146,7 +146,9 @@ def part_a_task(task):
 def bound_reference(alpha, t, var, delta):
     a = F(alpha) if not isinstance(alpha, float) else F(alpha)
     base = float((1 - a) ** t)
-    return base + math.sqrt(float(var) * float(a) / (float(2 - a) * float(delta)))
+    v = F(var) * a / ((2 - a) * F(delta))          # exact rational; its square root via integer arithmetic (no overflow)
+    root = math.isqrt((v.numerator << 240) // v.denominator) / (1 << 120) if v > 0 else 0.0
+    return base + root
 
 
 def part_b_driver(cfg, T, mode):
@@ -184,7 +186,7 @@ def part_b_driver(cfg, T, mode):
             prev = None
             for delta in DELTAS:
                 try:
-                    cb = ex.get_confidence_bound(delta if mode == 'exact' else float(delta))
+                    cb = ex.get_confidence_bound(delta if (mode == 'exact' or isinstance(delta, float)) else float(delta))
                 except Exception as e:
                     raise Violation(f"{PID}/bound-raised", f"{where}: get_confidence_bound({delta}) raised "
                                                            f"{type(e).__name__}: {e}", {})
@@ -193,10 +195,12 @@ def part_b_driver(cfg, T, mode):
                 for n in h.names:
                     got = cb[n]
                     want = bound_reference(alpha, ex.seen_samples, var[n], delta)
+                    if want > 1e150:
+                        continue    # var*alpha/((2-alpha)*delta) itself exceeds the float range: the literal formula overflows
                     if not finite(got) or not (got >= 0):
                         raise Violation(f"{PID}/bound-not-finite", f"{where}: bound of {n!r} for delta={delta} is "
                                                                    f"{got!r}", {})
-                    if abs(float(got) - want) > 16 * EPS * max(1.0, abs(want)):
+                    if abs(float(got) - want) > 32 * EPS * max(1.0, abs(want)):
                         raise Violation(f"{PID}/bound-formula", f"{where}: get_confidence_bound({delta})[{n!r}] = "
                                         f"{float(got)!r}, formula (1-a)^t + sqrt(var*a/((2-a)*delta)) with a={alpha}, "
                                         f"t={ex.seen_samples}, var={float(var[n])!r} gives {want!r}", {})
